@@ -6,6 +6,7 @@ import Driver.OpsBwd
 import Driver.OpsExpr
 import Driver.OpsCtc
 import Driver.OpsSym
+import Driver.OpsCov
 open Ibex Ibex.Proto
 
 def dispatch (op : String) (ins outs : List String) : String :=
@@ -25,6 +26,9 @@ def dispatch (op : String) (ins outs : List String) : String :=
   | some r => r
   | none =>
   match Ibex.Driver.opsSym op ins outs with
+  | some r => r
+  | none =>
+  match Ibex.Driver.opsCov op ins outs with
   | some r => r
   | none => "bad-op"
 
